@@ -15,6 +15,7 @@ mod c02;
 mod c06;
 mod c07;
 mod c13;
+mod c17;
 
 pub fn unhex(s: &str) -> Vec<u8> {
     if s == "-" {
@@ -45,6 +46,7 @@ fn run_case(line: &str) -> String {
         .or_else(|| c06::dispatch(kind, &f))
         .or_else(|| c07::dispatch(kind, &f))
         .or_else(|| c13::dispatch(kind, &f))
+        .or_else(|| c17::dispatch(kind, &f))
         .unwrap_or_else(|| format!("UNKNOWN-KIND {kind}"))
 }
 
